@@ -101,7 +101,8 @@ fn main() {
          indirect jumps, returns; assignment cycles `Y = f(X); X = g(Y)` through 2-3 registers followed by a jump / diamond / loop \
          back-edge and observable reads of X; nested extension casts of every ordered pair of kinds, directly and through an \
          inlined temporary, reaching an observable; loads / assignments that read the register they overwrite after a \
-         non-foldable assignment to it) -> real normalize_basic -> every optimizing pass (chained as in normalize_optimize, \
+         non-foldable assignment to it; block preconditions invalidated by a load / an assignment before a block \
+         branching on the same condition) -> real normalize_basic -> every optimizing pass (chained as in normalize_optimize, \
          or alone) -> programs before/after; each function is run from several initial states by the Lean reference \
          interpreter (random states plus two pattern states with the top bit of every sub-piece set); non-trivial = at least one pass changed the program; distinct by program text",
     );
@@ -154,7 +155,7 @@ fn main() {
     // expression propagation alone)
     if !args.extra.contains_key("crafted") {
         for (name, program) in
-            cycle_directed_programs().into_iter().chain(castnest_directed_programs()).chain(loadself_directed_programs())
+            cycle_directed_programs().into_iter().chain(castnest_directed_programs()).chain(loadself_directed_programs()).chain(cfpre_directed_programs())
         {
             let mut project = project_x64(program);
             let _ = project.normalize_basic();
@@ -163,7 +164,7 @@ fn main() {
             let all: Vec<String> = PASSES.iter().map(|s| s.to_string()).collect();
             let (l, _) = case_line(&project, &all, true, &seeds, fuel, &mut out);
             out.case(&l, Some(name));
-            for single in ["prop", "triv", "dve"] {
+            for single in ["prop", "triv", "dve", "cf"] {
                 let (l, _) = case_line(&project, &[single.to_string()], false, &seeds, fuel, &mut out);
                 out.case(&l, None);
             }
